@@ -50,13 +50,13 @@ def gen(rng, tier, ctx):
         if op == "clear" and rng.random() > p_clear * 10:
             op = "create"
         if op == "create":
-            steps.append(["create", rng.choice(["Person", "Employee", "Manager", "Org", "Dept", "Chief", "Volunteer", "WorkingStudent"])])
+            steps.append(["create", rng.choice(["Person", "Employee", "Manager", "Org", "Dept", "Chief", "Volunteer", "WorkingStudent", "VOrg", "VOrg", "VPerson"])])
         elif op in ("drop",):
             steps.append(["drop", rng.randrange(1000)])
         elif op == "relate":
             steps.append(["relate", rng.choice(["works_for", "member_of", "members", "sub_org_of"]), rng.randrange(1000), rng.randrange(1000)])
         elif op in ("q_new", "q_build"):
-            steps.append([op, rng.choice(["Person", "Employee", "Manager", "Org", "Dept", "Chief", "Volunteer", "WorkingStudent"])])
+            steps.append([op, rng.choice(["Person", "Employee", "Manager", "Org", "Dept", "Chief", "Volunteer", "WorkingStudent", "VOrg", "VPerson"])])
         elif op == "q_eval":
             steps.append(["q_eval", rng.randrange(1000)])
         else:
@@ -183,6 +183,8 @@ def run(spec, ctx):
                 if not persons:
                     continue
                 obj = om.Chief(persons[seq % len(persons)])
+            elif step[1] in ("VOrg", "VPerson"):
+                obj = om.ALL_CLASSES[step[1]](f"twin{seq % 2}")      # value-equal, distinct instances
             else:
                 obj = om.ALL_CLASSES[step[1]](name)
             strong[name] = obj
